@@ -361,11 +361,25 @@ func drawStream(t *rapid.T, wname string, targets []string) streamCase {
 		hs := boundaryHistograms(w.S)
 		h := hs[rapid.IntRange(0, len(hs)-1).Draw(t, "hist")]
 		bins := rapid.Permutation([]int{0, 1, 2, 3, 4, 5, 6, 7, 8, 9}).Draw(t, "bins")
+		// optionally let one sample per bin be one that FAILS item j while its Q lies in that bin (two-sided tests:
+		// P small with Q near 0 or near 1), so that pass counting and the Q histogram interact
+		withFailing := rapid.Bool().Draw(t, "failing_in_bin")
+		failBudget := allowed
 		for k, cnt := range h {
 			for i := 0; i < cnt; i++ {
+				if withFailing && i == 0 && failBudget > 0 && len(p.failByBin[j][bins[k]]) > 0 {
+					specs = append(specs, pick(t, p, p.failByBin[j][bins[k]], "failbin"))
+					failBudget--
+					continue
+				}
 				specs = append(specs, pick(t, p, p.byBin[j][bins[k]], "bin"))
 			}
 		}
+	case "one-bad": // all-pass samples plus exactly `allowed` stuck-at samples: passes, unless sample contents get mixed up
+		for i := 0; i < allowed; i++ {
+			specs = append(specs, sampleSpec{Kind: "const", Seed: rapid.SampledFrom([]uint64{0x00, 0xff, 0x55}).Draw(t, "stuck")})
+		}
+		fill(w.S)
 	case "lfsr": // only items 13-15 (linear complexity) would fail
 		for i := 0; i < w.S; i++ {
 			specs = append(specs, sampleSpec{Kind: "lfsr", Seed: rapid.Uint64Range(1, 1<<62).Draw(t, "state")})
